@@ -177,6 +177,10 @@ def check_C15(tier_, sd, consts_ok, consts_detail):
             p.files = [("/chain.txt.txtpp", main.encode()), ("/plain.txt", b"plain\n"), ("/first.tmp", b"old"), ("/second.tmp", b"old"), ("/third.tmp", b"old"), ("/chain.txt", b"old")]
             p.inputs = ["chain.txt"]; p.mode = md; p.sched = [0] * 4
             cprojs.append(p)
+    for j, (cont1, cont2) in enumerate([("  #", "    "), ("  # ", "  #"), ("    ", "    ")]):
+        p = Project("emptyarg%d" % j)
+        p.files = [("/e.txt.txtpp", ("top\n  # TXTPP#run printf \"[%%s]\\n\" \"a\n%s\n%s\n  # b\"\nend\n" % (cont1, cont2)).encode())]; p.inputs = ["e.txt"]; p.sched = [0] * 4
+        cprojs.append(p)
     complete_oracles(cprojs)
     ccases = [p.text() for p in cprojs]
     cimpl = [parse_obs(x) for x in run_impl(ccases)]; cmodel = [parse_obs(x) for x in run_model(ccases)]
@@ -896,6 +900,14 @@ def check_C01(tier_, sd, consts_ok, consts_detail):
                                              extra={"second_version_expected_after_mid": short(second)}))
         elif (a["verdict"], a["F"] if a["verdict"] == "ok" else None) != (b["verdict"], b["F"] if b["verdict"] == "ok" else None) and len(violations) < 5:
             violations.append(proj_violation("C01", "verdict or generated bytes differ from the README semantics (re-included file)", q, a, b))
+    killed = []
+    for k_, cmd in enumerate(["printf 'partial\\n'; kill -9 $$; printf 'rest\\n'", "printf 'partial\\n'; kill -TERM $$", "kill -SEGV $$", "printf ok; exit 3", "printf 'fine\\n'"]):
+        q = Project("killed%d" % k_); q.files = [("/s.txt.txtpp", ("head\n// TXTPP#run %s\n//\ntail\n" % cmd).encode())]; q.inputs = ["s.txt"]; q.sched = [0] * 4
+        killed.append(q)
+    gi2, gm2 = both(killed)
+    for k_, (q, a, b) in enumerate(zip(killed, gi2, gm2)):
+        if (a["verdict"] == "ok") != (k_ == 4) and len(violations) < 5:
+            violations.append(proj_violation("C01", "the build fails if and only if a command fails: a command that %s gave verdict %s" % ("is killed by a signal / exits non-zero" if k_ < 4 else "succeeds", a["verdict"]), q, a, b))
     # the repository's own golden fixtures as a sanity check of the specification
     fx = fixture_projects()
     fi, fm = both(fx)
@@ -1019,6 +1031,17 @@ def check_C13(tier_, sd, consts_ok, consts_detail):
             elif x == y and x.endswith(le) and len(x) > len(le):
                 # the option-off output still ends with the ending: legal only if the source's last item does not produce a final newline either way
                 rel["dependency-leaf/same"] += 1
+    # an EMPTY list of inputs (library configuration) requests nothing: no file is processed under either setting of the option
+    noin = []
+    for tn in (True, False):
+        for md in (0, 1):
+            q = Project("noinputs%d%d" % (tn, md)); q.files = [("/a.txt.txtpp", b"line 1\nlast line\n"), ("/sub/b.md.txtpp", b"b\n")]; q.inputs = []; q.trailing = tn; q.mode = md; q.sched = [0] * 4
+            noin.append(q)
+    ni2, nm2 = both(noin, oracle=False)
+    for q, a, b in zip(noin, ni2, nm2):
+        made_ = sorted(f_ for f_, v_ in a["F"].items() if v_ is not None and f_ not in dict(q.files))
+        if (made_ or a["verdict"] != b["verdict"]) and len(violations) < 5:
+            violations.append(proj_violation("C13", "an empty input list: files were generated %s (and, generated that way, they ignore the option) / verdict %s vs model %s" % (made_, a["verdict"], b["verdict"]), q, a, b, found=bool(made_)))
     # history: built with the option on, then rebuilt with --needed and the option off (and the other way round):
     # the result must be the option-off (resp. on) output, not the leftover
     hist = []
@@ -1233,7 +1256,7 @@ def check_C12(tier_, sd, consts_ok, consts_detail):
 def check_C16(tier_, sd, consts_ok, consts_detail):
     rng = Rng(sd).fork("C16")
     n = 500 if tier_ == "quick" else 20000
-    words = gen.WORDS + gen.LOOKALIKE + ["", " ", "\tx", "TXTPP#", "TXTPP#run", "-TXTPP#write x", "// TXTPP#include f", "TAG1", "é　x", "a\tb  "]
+    words = gen.WORDS + gen.LOOKALIKE + ["mid\r", "", " ", "\tx", "TXTPP#", "TXTPP#run", "-TXTPP#write x", "// TXTPP#include f", "TAG1", "é　x", "a\tb  "]
     # (a) sources without any directive line (look-alikes included); classify with the model
     texts = []
     for k in range(n):
@@ -1410,6 +1433,13 @@ def check_C14(tier_, sd, consts_ok, consts_detail):
             p.files = [p.files[0], ("/inc.txt.txtpp", r.choice([b"gen inc\n", b"g1\r\ng2\r\n", b"-TXTPP#write NAME in a dependency\n"]))]
         p.inputs = ["s.txt"]; p.sched = [r.below(2) for _ in range(6)]
         projs.append(p)
+    for j_, flen in enumerate([8191, 9000] if tier_ == "quick" else [8190, 8191, 8192, 9000, 16500]):
+        for le_ in ("\r\n", "\n"):
+            q = Project("lclong%d%s" % (j_, "c" if le_ == "\r\n" else "l"))
+            other = "\n" if le_ == "\r\n" else "\r\n"
+            src = "B" * flen + le_ + "-TXTPP#tag NAME" + le_ + "=TXTPP#include inc.txt" + le_ + "x NAME y" + le_
+            q.files = [("/s.txt.txtpp", src.encode()), ("/inc.txt", ("i1" + other + "i2" + other + "i3").encode())]; q.inputs = ["s.txt"]; q.sched = [0] * 4
+            projs.append(q)
     complete_oracles(projs)
     oi, om = both(projs)
     pbad = [j for j in range(len(projs)) if (oi[j]["verdict"], oi[j]["F"] if oi[j]["verdict"] == "ok" else None) != (om[j]["verdict"], om[j]["F"] if om[j]["verdict"] == "ok" else None)]
@@ -1701,7 +1731,15 @@ def check_C07(tier_, sd, consts_ok, consts_detail):
         elif (c["verdict"], c["F"], c["U"]) != (m["verdict"], m["F"], m["U"]) and len(violations) < 5:
             violations.append(proj_violation("C07", "clean differs from the model (tree or touched set)", p, c, m, found=False))
         else: hard_ok += 1
-    cov = {"evaluations": 2 * len(projs) + len(hard) + len(nodel) + len(look) + len(dbl), "distinct_nontrivial": len(nontriv), "double_txtpp_name_cases": len(dbl), "clean_with_unhonourable_temp_directives_ok": hard_ok, "clean_after_outputs_deleted_ok": nodel_ok, "clean_lookalike_blocks_ok": look_ok,
+    cses = cli_session({"a.txt.txtpp": "x\n-TXTPP#run printf 'r\\n' >> ../marker_outside; printf 'y\\n'\n\n=TXTPP#temp a.tmp\n=t\n", "sub/b.md.txtpp": "b\n", "keep.txt": "k"},
+                       [["-q", "-r"], ["-N", "clean", "-q", "-r"], ["-q", "-r"], ["--needed", "-n", "clean", "-q", "a.txt"], ["-N", "clean", "-q", "-r"], ["-N", "clean", "-q", "-r"]])
+    c_ok = [cses[0][0] == 0 and "a.txt" in cses[0][1], cses[1][0] == 0 and sorted(cses[1][1]) == ["a.txt.txtpp", "keep.txt", "sub/b.md.txtpp"],
+            cses[2][0] == 0, cses[3][0] == 0 and "a.txt" not in cses[3][1] and "a.tmp" not in cses[3][1] and "sub/b.md" in cses[3][1],
+            cses[4][0] == 0 and sorted(cses[4][1]) == ["a.txt.txtpp", "keep.txt", "sub/b.md.txtpp"], cses[5][0] == 0 and sorted(cses[5][1]) == ["a.txt.txtpp", "keep.txt", "sub/b.md.txtpp"]]
+    if not all(c_ok) and len(violations) < 6:
+        violations.append({"found": True, "replay": {"property": "C07", "what": "`txtpp [flags] clean` did not remove exactly what build generated (or ran something: -N before the subcommand must not turn clean into a build)",
+                           "steps": "build -r; -N clean -r; build -r; --needed -n clean a.txt; -N clean -r; -N clean -r (again)", "steps_ok": c_ok, "exits": [x[0] for x in cses], "trees": [sorted(x[1]) for x in cses]}})
+    cov = {"evaluations": 2 * len(projs) + len(hard) + len(nodel) + len(look) + len(dbl) + len(cses), "distinct_nontrivial": len(nontriv), "double_txtpp_name_cases": len(dbl), "cli_clean_steps_ok": c_ok, "clean_with_unhonourable_temp_directives_ok": hard_ok, "clean_after_outputs_deleted_ok": nodel_ok, "clean_lookalike_blocks_ok": look_ok,
            "rule": "generated projects (erroneous directives included, counting commands with marker files; plus projects whose temp targets lie in sub-directories, parent directories and outside the base directory) are built, then cleaned with the same inputs (whole tree, recursive); "
                    "checked on the implementation: clean succeeds, writes no marker (runs nothing), deletes no .txtpp, leaves every non-generated file byte-identical, and after a successful build restores the tree exactly; "
                    "distinct_nontrivial = distinct sets of generated paths that clean had to remove",
@@ -1709,6 +1747,8 @@ def check_C07(tier_, sd, consts_ok, consts_detail):
            "samples": [sorted(set(bi[0]["F"]) - set(dict(projs[0].files)))]}
     xcheck(cov, violations, "C07", cl, cm)
     return {"coverage": cov, "violations": violations}
+
+check_C07.needs_cli = True
 
 JUNK = [b"", b"STALE TEXT\n", b"\xff\xfe\x00junk", "é".encode()[:1], b"x" * 300]
 
@@ -2276,7 +2316,7 @@ def norm_join(base_dir, rel):
 def check_C17(tier_, sd, consts_ok, consts_detail):
     rng = Rng(sd).fork("C17")
     projs = []; meta = []
-    depths = ["/r.txt.txtpp", "/sub/r.txt.txtpp", "/sub/deep/r.txtpp", "/sub/deep/er/r.txtpp.md"]
+    depths = ["/r.txt.txtpp", "/sub/r.txt.txtpp", "/sub/deep/r.txtpp", "/sub/deep/er/r.txtpp.md", "/sub-docs/api/r.txt.txtpp"]
     k = 0
     for src in depths:
         for base in ["/", "/sub", "/sub/deep", "/other"]:
@@ -2293,7 +2333,7 @@ def check_C17(tier_, sd, consts_ok, consts_detail):
                     p.files = [(src, ("\n".join(body) + "\n").encode())]
                     # decoy directories with the same relative names under the process cwd
                     p.dirs = ["/decoy/sub/deep/er", "/decoy/deep/er", "/decoy/er", "/other", "/sub/deep/er",
-                              "/sh", "/decoy/sh", "/sub/sh", "/sub/deep/sh"]      # entries called `sh` in the process cwd / source directory: the shell comes from PATH
+                              "/sh", "/decoy/sh", "/sub/sh", "/sub/deep/sh", "/sub-docs/api"]      # entries called `sh` in the process cwd / source directory: the shell comes from PATH
                     p.base = base; p.cwd = cwd
                     sd_ = src.rsplit("/", 1)[0] or "/"
                     # the input is named relative to the base directory
@@ -2484,7 +2524,7 @@ def check_C18(tier_, sd, consts_ok, consts_detail):
     d = tempfile.mkdtemp(prefix="vp-c18-", dir=os.environ.get("VP_TMP", "/dev/shm"))
     try:
         open(os.path.join(d, "a.txt.txtpp"), "wb").write(b"x\n-TXTPP#run printf y\n\n")
-        for args in (["-j", "0"], ["-j", "1"], ["-j", "16"], ["verify", "-j", "0"], ["clean", "-j", "0"], ["-N", "-j", "0"], ["-s", "", "-j", "2"], ["-r", "-j", "3"]):
+        for args in (["-j", "0"], ["-j", "1"], ["-j", "16"], ["verify", "-j", "0"], ["clean", "-j", "0"], ["-N", "-j", "0"], ["-s", "", "-j", "2"], ["-r", "-j", "3"], ["-s", " ", "-j", "2"], ["-s", "\t  ", "verify"], ["-N", "-s", "  "], ["-s", "   ", "clean"]):
             try:
                 r = subprocess.run([CLI, "-q"] + args, cwd=d, stdout=subprocess.DEVNULL, stderr=subprocess.DEVNULL, timeout=30)
                 rc = r.returncode
